@@ -573,6 +573,8 @@ structure Sub14 (S : Sys) where
   model : Option (MSt S)
   /-- events already fed to the model -/
   fed : Nat
+  /-- forged subscription (arbitrary snapshot and events, no collection behind it) -/
+  forged : Bool := false
   recvs : List String := []
   /-- borrow results: (history length at that time, contents, complete, done, err) -/
   checks : List (Nat × String × String × String × String) := []
@@ -629,10 +631,11 @@ def feedLine14 (cd : Codec S) (st : St14 S) (line : String) : St14 S :=
     let incr := mode == "incr"
     let remote := place == "remote"
     let mirror := kind == "mirror"
+    let forged := rest.contains "forged"
     let model : Option (MSt S) :=
-      if mirror && !remote && !incr && !st.obs.done then some (MSt.init S st.obs.v buf max) else none
+      if mirror && (!remote || forged) && !incr && !st.obs.done then some (MSt.init S st.obs.v buf max) else none
     { st with subs := st.subs ++ [{ sid, k := st.hist.size, incr, remote, mirror, buf, max, c0 := st.obs.v,
-                                    done0 := st.obs.done, model, fed := 0 }] }
+                                    done0 := st.obs.done, model, fed := 0, forged }] }
   | "ev" :: rest =>
     match parseEvent cd rest with
     | some e => { st with hist := st.hist.push e }
@@ -646,6 +649,7 @@ def feedLine14 (cd : Codec S) (st : St14 S) (line : String) : St14 S :=
         else st.diff s!"state after {st.hist.size} events: real {c} but the events fold to {cd.showC folded}"
       advanceModels { st with obs := ⟨rc, rd⟩ } false
     | _, _ => st.diff s!"unparsable state line {line}"
+  | ["settled"] => advanceModels st false
   | ["dropped"] => advanceModels { st with dropped := true } true
   | ["cutdone"] => { st with cut := true }
   | "recv" :: sid :: rest =>
@@ -747,6 +751,9 @@ def checkMirror14 (cd : Codec S) (st : St14 S) (s : Sub14 S) : St14 S :=
           else if e == "Closed" then st.dropped || (st.cut && s.remote)
           else if isRemoteErr e then st.cut && s.remote
           else if e.startsWith "MaxSizeExceeded(" then e == s!"MaxSizeExceeded({s.max})" && sizes.any (· > s.max)
+          else if e.startsWith "InvalidIndex(" then
+            -- only a forged event stream can contain an event that does not apply; which one is the model's call
+            s.forged && (match s.model with | some m => showOptErr m.task.m.error == e | none => false)
           else false
         if ok then st else st.fail cd.name s!"mirror-unexpected-error sub={s.sid} err={e}" "unexplained"
     | none => st.diff s!"mirror {s.sid}: no borrow line"
